@@ -24,8 +24,8 @@ SCRATCH = os.environ["C44_SCRATCH"]  # created and removed by C44.sh
 EVIDENCE_DIR = os.environ.get("C44_EVIDENCE_DIR", os.path.join(V, "evidence"))
 REPLAY_DIR = os.environ.get("C44_REPLAY_DIR", os.path.join(V, "replays", PROP))
 
-QUICK_N = int(os.environ.get("C44_N", "1600"))
-QUICK_WALL_CAP_S = float(os.environ.get("C44_WALL_CAP_S", "55"))
+QUICK_N = int(os.environ.get("C44_N", "1200"))
+QUICK_WALL_CAP_S = float(os.environ.get("C44_WALL_CAP_S", "40"))
 THOROUGH_N = int(os.environ.get("C44_N", "200000"))
 THOROUGH_WALL_CAP_S = float(os.environ.get("C44_WALL_CAP_S", "900"))
 
